@@ -173,8 +173,11 @@ CLAIMS["C20"] = dict(
           "ThreadPool; observed: exception identity, consultation log, and the result of a following uninterrupted calculate on the SAME cube and "
           "aggregate objects against a fresh evaluation; all compared with the model inside Coq (~1 900 cases quick, ~15 000 thorough)."),
     note=("ThreadPool.map is modelled (trusted); schedules of the pooled runs are sampled, fault subsets are complete for k <= 6. The pooled theorems hold for "
-          "interrupts that are Exceptions; for a BaseException that is not an Exception the real pool hangs: recorded as KNOWN finding K1 "
-          "(known_findings.json), printed as KNOWN-FINDING on every run. Closed under the global context."),
+          "interrupts that are Exceptions other than StopIteration; for a BaseException that is not an Exception the real pool hangs (KNOWN finding K1), "
+          "and a StopIteration (or subclass) raised by the callback inside a pool task is swallowed by the pool worker's list(map(...)) so that calculate "
+          "returns a partial result (KNOWN finding K2, found with seeded change c20h): both recorded in known_findings.json and printed as KNOWN-FINDING "
+          "on every run; the callback's exception class is varied on every run (custom Exception, StopIteration and subclass, StopAsyncIteration, KeyError, "
+          "RuntimeError, ...). Closed under the global context."),
     technique="Coq proof over an outcome state machine (all chunkings / schedules / arrival orders) + exhaustive fault-set enumeration on the real code compared inside Coq",
     design_ref="DESIGN.md 4/C20")
 
@@ -396,10 +399,10 @@ def main():
         }],
         "checks": checks,
         "not_applicable": [{"property_id": p, "reason": NOT_YET} for p in props if p not in CLAIMS],
-        "notes": ("See DESIGN.md (section 0: status, deviations, findings, corrected false alarms, what ~150 seeded changes taught; section 2: "
+        "notes": ("See DESIGN.md (section 0: status, deviations, findings, corrected false alarms, what ~165 seeded changes taught; section 2: "
                   "trusted base; section 4: per-property theorems and ties; section 8: which check catches which seeded change). "
                   "known_findings.json lists the 30 genuine defects repaired by unguarded `fix:` commits in /repo (F1-F30, status fixed: they "
-                  "suppress nothing) and the one recorded finding K1 (C20, status known: printed as KNOWN-FINDING). No hooks were needed in /repo. "
+                  "suppress nothing) and the two recorded findings K1 and K2 (C20, status known: printed as KNOWN-FINDING). No hooks were needed in /repo. "
                   "evidence/coqchk.txt: independent re-check of all compiled property files, Axioms: <none>."),
     }
     json.dump(m, open(os.path.join(VERIF, "MANIFEST.json"), "w"), indent=1)
